@@ -32,7 +32,6 @@ var (
 var (
 	oidExtKeyUsage      = asn1.ObjectIdentifier{2, 5, 29, 37}
 	oidEKUTimeStamping  = asn1.ObjectIdentifier{1, 3, 6, 1, 5, 5, 7, 3, 8}
-	oidEKUEmailProtect  = asn1.ObjectIdentifier{1, 3, 6, 1, 5, 5, 7, 3, 4}
 	oidEKUDocumentSign  = asn1.ObjectIdentifier{1, 3, 6, 1, 5, 5, 7, 3, 36}
 	certValidityBack    = 2 * 365 * 24 * time.Hour
 	certValidityForward = 8 * 365 * 24 * time.Hour
